@@ -399,6 +399,12 @@ func (f *Frame) applyContractNamed(bi *BInfo, fc *FuncContract, sig *types.Signa
 			g.resolutionFailure(f, fmt.Sprintf("requires of %s: %v", disp, err))
 			continue
 		}
+		if strings.HasPrefix(c.Label, "assumed:") {
+			// an assumption about the environment that the callee's proof needs and that no caller
+			// can establish (listed in the evidence, never discharged)
+			g.assumeNote("assumed precondition of %s [%s]: %s", disp, c.Label, c.Text)
+			continue
+		}
 		f.addObl("pre", disp+"/"+clauseLabel(c, i), bi.R, v.S, "precondition of "+disp+": "+c.Text)
 	}
 	// frame
@@ -445,6 +451,9 @@ func (f *Frame) applyContractNamed(bi *BInfo, fc *FuncContract, sig *types.Signa
 		if w := g.wfFacts(st, r); w != "true" {
 			g.assert(sImp(bi.R, w))
 		}
+	}
+	if len(fc.GhostSets) > 0 {
+		f.applyGhostSets(fc, post, st)
 	}
 	for _, c := range fc.Ensures {
 		v, err := post.evalBool(c.Expr)
